@@ -52,7 +52,20 @@ static const char *lo_name[NLO] = { "load(A oct kid=k1)", "load(B EC kid=k1)", "
 				    "free(0)", "free(mid)", "free(last)", "free(n)", "free(SIZE_MAX)", "free_bad", "free_all", "error_clear", "free(2^32)", "load(set[oct with numeric alg, EC with boolean alg])" };
 static char *DOC_BADALG;   /* items that are refused late: they already own their key material (oct bytes, EVP_PKEY and PEM) */
 static char *DOC_A, *DOC_B, *DOC_SET;
-static const char DOC_BAD[] = "{\"kty\":\"oct\",\"kid\":\"kb\"}";   /* errored item that still carries a kid */
+static char DOC_BAD[400];   /* errored item that still carries a kid */
+/* The kids "k2", "kb" and "kz" of the model stand for identifiers of 257 characters that share their first 256 (a key server's URL-like
+ * ids): finding one of them must not stop at a length, a prefix or a hash of the first so-many characters.  "k1" stays short. */
+static char KLONG[3][264];
+static const char *kx(const char *alias)
+{
+	if (!KLONG[0][0])
+		for (int i = 0; i < 3; i++) {
+			memset(KLONG[i], 'k', 256);
+			KLONG[i][256] = "2bz"[i];
+			KLONG[i][257] = 0;
+		}
+	return !strcmp(alias, "k2") ? KLONG[0] : !strcmp(alias, "kb") ? KLONG[1] : !strcmp(alias, "kz") ? KLONG[2] : alias;
+}
 static const char DOC_NONJSON[] = "{\"keys\":[";
 static const char DOC_EMPTYKEYS[] = "{\"keys\":[]}";
 
@@ -62,9 +75,10 @@ static void c16_docs(void)
 	vk_oct_bytes(3, k, 32);
 	DOC_A = vk_oct_jwk(k, 32, "HS256", "k1");
 	DOC_B = vk_jwk_text(vk_get("p256a"), 0, "ES256", "k1");
-	char *o = vk_oct_jwk(k, 32, NULL, "k2"), *r = vk_jwk_text(vk_get("rsa2048a"), 0, "RS256", "k1");
-	DOC_SET = malloc(strlen(o) + strlen(r) + 200);
-	sprintf(DOC_SET, "{\"keys\":[%s,{\"kty\":\"ZZ\",\"kid\":\"kz\"},%s]}", o, r);
+	char *o = vk_oct_jwk(k, 32, NULL, kx("k2")), *r = vk_jwk_text(vk_get("rsa2048a"), 0, "RS256", "k1");
+	DOC_SET = malloc(strlen(o) + strlen(r) + 600);
+	sprintf(DOC_SET, "{\"keys\":[%s,{\"kty\":\"ZZ\",\"kid\":\"%s\"},%s]}", o, kx("kz"), r);
+	snprintf(DOC_BAD, sizeof DOC_BAD, "{\"kty\":\"oct\",\"kid\":\"%s\"}", kx("kb"));
 	{
 		json_t *jo = json_loads(o, 0, NULL), *je = json_deep_copy(vk_get("p256b")->priv_jwk);
 		json_object_set_new(jo, "alg", json_integer(7));
@@ -214,7 +228,7 @@ static int observe_list(jwk_set_t *s, const mlist_t *m, const int *ops, int nops
 			continue;
 		}
 		const char *kid = jwks_item_kid(it);
-		if (strcmp(kid ? kid : "", m->it[i].kid) || (int)jwks_item_kty(it) != m->it[i].kty || !!jwks_item_error(it) != m->it[i].err)
+		if (strcmp(kid ? kid : "", kx(m->it[i].kid)) || (int)jwks_item_kty(it) != m->it[i].kty || !!jwks_item_error(it) != m->it[i].err)
 			OBSV("list|order-or-identity-differs", "item %d is kid=%s kty=%d err=%d, model kid=%s kty=%d err=%d after step %d of [%s]", i, kid ? kid : "", jwks_item_kty(it),
 			     jwks_item_error(it), m->it[i].kid, m->it[i].kty, m->it[i].err, step, lhist_str(ops, nops));
 		if (jwks_item_error(it) && pass < m->n + 2) {
@@ -230,18 +244,28 @@ static int observe_list(jwk_set_t *s, const mlist_t *m, const int *ops, int nops
 			if (off[k] + (size_t)i >= (size_t)m->n && jwks_item_get(s, off[k] + (size_t)i))
 				OBSV("list|get-beyond-end", "get(%#zx) returned an item (n=%d) after [%s]", off[k] + (size_t)i, m->n, lhist_str(ops, nops));
 	}
-	static const char *kids[] = { "k1", "k2", "kb", "kz", "k", "k11", "zz", "" };
+	/* the kids in use (long ones in their long form), and strangers: shorter, longer, the shared prefix alone and with another last character,
+	 * the short aliases themselves */
+	static char absent[4][264];
+	if (!absent[0][0]) {
+		memset(absent[0], 'k', 256);                            /* the common prefix, nothing after it */
+		memset(absent[1], 'k', 255);                            /* one short of it */
+		memset(absent[2], 'k', 256); absent[2][256] = '9';     /* same length as the real ones, another last character */
+		memset(absent[3], 'k', 256); absent[3][256] = '2'; absent[3][257] = '2';   /* a real one and one more character */
+	}
+	const char *kids[] = { "k1", kx("k2"), kx("kb"), kx("kz"), "k", "k11", "zz", "", "k2", "kb", absent[0], absent[1], absent[2], absent[3] };
 	for (unsigned k = 0; k < sizeof kids / sizeof *kids; k++) {
 		int want = -1;
 		for (int i = 0; i < m->n; i++)
-			if (m->it[i].kid[0] && !strcmp(m->it[i].kid, kids[k])) {
+			if (m->it[i].kid[0] && !strcmp(kx(m->it[i].kid), kids[k])) {
 				want = i;
 				break;
 			}
 		jwk_item_t *f = jwks_find_bykid(s, kids[k]);
 		const jwk_item_t *w = want >= 0 ? jwks_item_get(s, want) : NULL;
 		if (f != w)
-			OBSV("list|find_bykid-differs", "find_bykid(%s) returned %s, model says index %d after [%s]", kids[k], f ? "another item" : "NULL", want, lhist_str(ops, nops));
+			OBSV("list|find_bykid-differs", "find_bykid(%.20s%s, %zu characters) returned %s, model says index %d after [%s]", kids[k], strlen(kids[k]) > 20 ? "..." : "", strlen(kids[k]),
+			     f ? "another item" : "NULL", want, lhist_str(ops, nops));
 	}
 	int any = jwks_error_any(s);
 	if (any != m->seterr + errs)
